@@ -238,11 +238,14 @@ def loop_coupled(fn: ast.FunctionDef, call: ast.Call) -> tuple[bool, str]:
     if not lists:
         return False, f'the placeholders are collected over {sorted(set(ph.values()))}, the metavariables over range{rng}'
     fmt_arg = call.args[3] if len(call.args) > 3 else _kw(call, 'format_str')
-    if not isinstance(fmt_arg, ast.Name):
+    if fmt_arg is None:
         return False, 'the format argument is not the string built from the collected placeholders'
-    defs = [n.value for n in ast.walk(fn) if isinstance(n, (ast.Assign, ast.AnnAssign)) and n.value is not None
-            and isinstance(n.targets[0] if isinstance(n, ast.Assign) else n.target, ast.Name)
-            and (n.targets[0] if isinstance(n, ast.Assign) else n.target).id == fmt_arg.id]
+    if isinstance(fmt_arg, ast.Name):
+        defs = [n.value for n in ast.walk(fn) if isinstance(n, (ast.Assign, ast.AnnAssign)) and n.value is not None
+                and isinstance(n.targets[0] if isinstance(n, ast.Assign) else n.target, ast.Name)
+                and (n.targets[0] if isinstance(n, ast.Assign) else n.target).id == fmt_arg.id]
+    else:
+        defs = [fmt_arg]                     # the format expression written in place
     arms = []
     for d in defs:
         arms += [d.body, d.orelse] if isinstance(d, ast.IfExp) else [d]
@@ -483,8 +486,19 @@ def transformers_treat_outputs_alike(ctx, py: PyRepo):
     ctx.ob('outputs-treated-alike', 'scan', True, f'{n} class tests on the wrapped interpreter examined (detector self-checked on a positive example)', '')
 
 
+def optimiser_deterministic(ctx, py: PyRepo):
+    """the binary and the pretty file of a module are written by two separate runs of the generator (two processes, two hash seeds),
+    each choosing what to memoise: the listings correspond only if that choice does not depend on the iteration order of a set
+    (shared with C18, restricted to the optimiser modules)"""
+    from ..core.ordertaint import OrderAnalysis, reachable_functions
+    from ..spec.order_triage import ENTRY_POINTS
+    from .c18 import order_sites
+    order_sites(ctx, py, OrderAnalysis(py), reachable_functions(py, ENTRY_POINTS), only_modules={'counting_interpreter', 'optimizing_interpreters'})
+
+
 def run(ctx):
     py = PyRepo.get()
+    optimiser_deterministic(ctx, py)
     notation_formats(ctx, py)
     renderer_transparent(ctx, py)
     argument_order(ctx, py)
